@@ -10,7 +10,7 @@ Open Scope N_scope.
 Definition c02_demo : list action :=
   [AReq 1 (make_cmd true 1 0 101 7 0 5 0 10 2 2 None); AReq 2 (make_cmd true 2 0 102 7 0 5 0 10 2 0 None)].
 
-Theorem C02_lookup_only_owner : forall t0 a acts, core_run (init_db t0 a) acts ->
+Theorem C02_lookup_only_owner : forall t0 a acts, core acts ->
   forall k m id r, aget (mgrs (fst (run (init_db t0 a) acts))) k = Some m ->
     get_locked_lock (fst (run (init_db t0 a) acts)) m id = Some r ->
     exists l, aget (store (fst (run (init_db t0 a) acts))) r = Some l /\ l_key l = k /\ 0 < l_locked l
@@ -19,10 +19,10 @@ Proof. exact reach_lookup_sound. Qed.
 Goal True. idtac "ASSUMPTIONS-OF C02_lookup_only_owner". Abort.
 Print Assumptions C02_lookup_only_owner.
 Example C02_lookup_only_owner_nonvacuous :
-  core_run (init_db 1000000 1) c02_demo
+  core c02_demo
   /\ exists m, aget (mgrs (fst (run (init_db 1000000 1) c02_demo))) 7 = Some m
                /\ get_locked_lock (fst (run (init_db 1000000 1) c02_demo)) m 102 = Some 2.
-Proof. split; [split; [repeat constructor|repeat split; vm_compute; reflexivity]|eexists; split; vm_compute; reflexivity]. Qed.
+Proof. split; [split; [repeat constructor|vm_compute; reflexivity]|eexists; split; vm_compute; reflexivity]. Qed.
 
 Theorem C02_unlock_refused : forall s conn c m,
   aget (mgrs s) (c_key c) = Some m ->
